@@ -12,6 +12,15 @@ from ..wire import fmt_sig, error_blocks
 from ..etf import load_spec, dispatch_table, DEC, OWNED
 
 
+def _ascii_guarded(PB, bb):
+    """is block bb dominated by the true edge of an is_ascii() test?"""
+    for (src, vals, dst) in dominating_edges(PB, bb):
+        sb = PB.switch_bool_edges(src)
+        if sb and sb[0][0] == 'call' and (callee_of(sb[0][2])[0] or '').endswith('::is_ascii') and dst == sb[1]:
+            return True
+    return False
+
+
 def _remainder_empty_at(ctx, FB, bb, only_call=None):
     """Is the unconsumed input of the parser call that last precedes block bb known to have length 0 at bb
     (whatever form the test takes: is_empty(), len() == 0, a slice pattern ...)?  Returns a description or None."""
@@ -121,8 +130,12 @@ def run(ctx):
         rets = [bb for bb in PB.return_blocks()]
         reach = PB.reachable(0, removed_blocks=set(utf8_calls) | err)
         oks = [bb for bb, j, st in PB.stmts() if st['k'] == '=' and st['pl']['l'] == 0 and st['rv']['k'] == 'agg' and st['rv'].get('var') == 'Ok']
-        if any(b in reach for b in oks):
-            ctx.ok('C03.3-latin1', inst, 'a success path exists that does not go through from_utf8', ctx.where(PB))
+        unguarded = [bb for bb in utf8_calls if not _ascii_guarded(PB, bb)]
+        if unguarded:
+            ctx.bad('C03.3-latin1', inst, '%s reads the raw bytes of a Latin-1 atom as UTF-8 without having established that they are ASCII: bytes >= 0x80 that happen to form a valid UTF-8 sequence '
+                    '(0xC3 0xA9) become one character instead of two' % ent['parser'].rsplit('::', 1)[1], ctx.where(PB, unguarded[0]), key='SHAPE:%s:latin1-as-utf8' % ent['parser'])
+        elif any(b in reach for b in oks):
+            ctx.ok('C03.3-latin1', inst, 'from_utf8 only under is_ascii(); a success path exists that does not go through it', ctx.where(PB))
         else:
             ctx.bad('C03.3-latin1', inst, 'every success path of %s validates the raw bytes with str::from_utf8: a Latin-1 atom containing a byte >= 0x80 (e.g. 0xE9) is rejected' % ent['parser'].rsplit('::', 1)[1],
                     ctx.where(PB, utf8_calls[0]), key='SHAPE:%s:latin1-as-utf8' % ent['parser'])
